@@ -156,6 +156,12 @@ def main(argv=None):
         print('HARNESS ERROR: vacuous shards (one distinct outcome): %s' % json.dumps(vac[:5], default=str))
         return 2
 
+    if not any(r['violations'] for r in results) and not a.only and \
+            cov.get('evaluations', 0) + cov.get('transitions', 0) + cov.get('programs', 0) == 0:
+        print('HARNESS ERROR: nothing was explored (every construction rejected?): %s' % json.dumps(
+            {k: v for k, v in cov.items() if k in SUMMABLE}, default=str))
+        return 2
+
     # violations / known findings
     findings = [f for f in load_findings() if f['property'] == pid]
     known = [f for f in findings if f.get('status') == 'known']
